@@ -52,7 +52,7 @@ def run(ctx):
             "(ticks every 100 ms, timer); instants where a tick coincides with the timer or with another connection's "
             "command are avoided by the generators (either order is legitimate there)",
             "reference clauses (coq/Mem/ListsSpec.v) transcribed from memory of the Redis command reference; "
-            "LPOP/RPOP count 0 is given latitude (error or empty array)",
+            "LPOP/RPOP count 0: empty array / nil for a missing key (Redis >= 6.2/7.0), no latitude",
         ],
         assumptions=["harness/mem.go BG directive, T/G/WD trace lines and the per-step watchdog; ml/memrun.ml replays them "
                      "through extracted srv_exec_bg (coq/Mem/ListsBg.v)"],
